@@ -122,6 +122,13 @@ Enter(r) == /\ r.ev = "enter"
             /\ UNCHANGED <<hdr, done, minr>> /\ prev' = r
 
 IsIls == hdr.template \in {"real_ils", "permutation_ils"}
+IsFa == hdr.template \in {"real_fa", "real_fa@A"}
+\* C07, "reported best = minimum the objective function returned", with the two named deviations of the pinned code:
+\* ILS never offers the perturbed solution to the best-update; the firefly update evaluates every intermediate
+\* position of a moving firefly itself and only the final position reaches the population (and the best-update)
+BestIsMin(b, m) ==
+    IF IsFa THEN Dev(b = m, "KF_FireflyIntermediate_Best", b > m)
+    ELSE Dev(b = m, "KF_IlsScopeWiring_Best", IsIls /\ b > m)
 
 Exit(r) == /\ r.ev = "exit"
            /\ Len(frames) > 0
@@ -141,9 +148,8 @@ Exit(r) == /\ r.ev = "exit"
                     /\ Last(r.sizes) >= hdr.size_lo /\ Last(r.sizes) <= hdr.size_hi
               \* C07: a run may end after any pass of its main loop, so what holds at the end of a run holds here:
               \* the recorded best is the minimum the objective function returned so far
-              \* (KF: ILS never offers the perturbed solution to the best-update)
               /\ (On("C07") /\ f.role = "loop_body" /\ ~InLoop(rest) /\ r.sd = 1 /\ r.calls > 0) =>
-                    Dev(r.best = r.minseen, "KF_IlsScopeWiring_Best", IsIls /\ r.best > r.minseen)
+                    BestIsMin(r.best, r.minseen)
               /\ frames' = rest
            /\ UNCHANGED <<hdr, done, minr>> /\ prev' = r
 
@@ -187,9 +193,9 @@ End(r) == /\ r.ev = "end"
                /\ r.iters = hdr.n                    \* exactly the requested number of iterations
           \* reported evaluations = objective invocations  (KF: ILS does not count the evaluations of its inner scope)
           /\ (On("C06") /\ r.result = "ok") => Dev(r.evals = r.calls, "KF_IlsScopeWiring_Count", IsIls /\ r.evals < r.calls)
-          \* reported best = minimum ever returned  (KF: ILS never offers the perturbed solution to the best-update)
+          \* reported best = minimum ever returned
           /\ (On("C07") /\ r.result = "ok" /\ r.calls > 0) =>
-                Dev(prev.best = r.minseen, "KF_IlsScopeWiring_Best", IsIls /\ prev.best > r.minseen)
+                BestIsMin(prev.best, r.minseen)
           \* C19: generation always yields its tours and the updates are well-formed: an ant-colony run never aborts
           /\ (On("C19") /\ hdr.xk = "aco") => r.result = "ok"
           \* C20: "all steps of CRO template runs": every pass performs one of the four reactions, none aborts
